@@ -1,8 +1,759 @@
 // decoders_more.hpp -- further documented-layout decoders (one per family) and further reference-image checks.
+// Every decoder is written from the layout documentation only (the "Serialized sketch layout" comments and named offset constants in the
+// headers, and the DataSketches Java memory-layout documentation they mirror), parses with the bounds-checked reader Rd, must consume the
+// image exactly, and compares what it recovered with what the live object reports.
 #ifndef DECODERS_MORE_HPP
 #define DECODERS_MORE_HPP
 namespace dec {
-inline void register_more() {}
-inline void legacy_more(mc::Report&, const mc::Config&) {}
+
+// ---------------- item encodings ----------------
+// arithmetic items: raw little-endian; std::string (serde<std::string>): 4-byte length + bytes; mc::Item (mc::ItemSerde): 4 bytes
+template<class T> struct ItemIO;
+template<> struct ItemIO<float> { typedef float K; static K get(Rd& r) { return r.f32(); } static K key(const float& v) { return v; } static float make(const K& k) { return k; } };
+template<> struct ItemIO<double> { typedef double K; static K get(Rd& r) { return r.f64(); } static K key(const double& v) { return v; } static double make(const K& k) { return k; } };
+template<> struct ItemIO<int64_t> { typedef int64_t K; static K get(Rd& r) { return (int64_t)r.u64(); } static K key(const int64_t& v) { return v; } static int64_t make(const K& k) { return k; } };
+template<> struct ItemIO<std::string> { typedef std::string K;
+  static K get(Rd& r) { uint32_t n = r.u32(); if (!r.ok || r.p + (size_t)n > r.b.size()) { r.ok = false; return K(); } K s((const char*)r.b.data() + r.p, (size_t)n); r.p += n; return s; }
+  static K key(const std::string& v) { return v; } static std::string make(const K& k) { return k; } };
+template<> struct ItemIO<mc::Item> { typedef int K; static K get(Rd& r) { return (int)r.u32(); } static K key(const mc::Item& v) { return v.get(); } static mc::Item make(const K& k) { return mc::Item(k); } };
+
+template<class K> std::string kstr(const K& k) { return str(k); }
+
+// ---------------- KLL<T> (kll_sketch.hpp "Serialized sketch layout") ----------------
+// same layout as kll_float in decoders.hpp; items, min and max are written by the item serde
+template<class T> void kll_any(const Bytes& img, Obj& live, mc::Ctx& c) {
+  typedef typename QuantTypes<T, 0>::Sk Sk; typedef QObj<Sk, T, 0> O; typedef ItemIO<T> IO; typedef typename IO::K K;
+  O* o = dynamic_cast<O*>(&live); if (!o) { c.fail("decoder-type", "unexpected object type"); return; }
+  const Sk& sk = o->sk; Rd r(img);
+  uint8_t pre = r.u8(), ver = r.u8(), famid = r.u8(), flags = r.u8(); uint16_t k = r.u16(); uint8_t m = r.u8(); r.u8();
+  if (!c.ok("kll.header-in-bounds", r.ok, "image shorter than 8 bytes")) return;
+  c.eq("kll.family-id", (int)famid, 15); c.eq("kll.k", (int)k, (int)sk.get_k()); c.eq("kll.m", (int)m, 8);
+  const bool empty = flags & 1, l0sorted = flags & 2, single = flags & 4;
+  c.ok("kll.flags-reserved-zero", (flags & 0xf8) == 0, "flags " + str((int)flags));
+  c.eq("kll.flag-empty", empty, sk.is_empty());
+  c.eq("kll.flag-single-item", single, sk.get_n() == 1);
+  c.eq("kll.preamble-ints", (int)pre, (empty || single) ? 2 : 5);
+  c.eq("kll.serial-version", (int)ver, single ? 2 : 1);
+  if (empty) { c.ok("kll.empty-image-is-8-bytes", r.ok && r.at_end(), "size " + str(img.size())); return; }
+  if (single) { K v = IO::get(r); c.ok("kll.single-item", r.ok && r.at_end() && v == IO::key(sk.get_min_item()) && v == IO::key(sk.get_max_item()), "single item image"); return; }
+  uint64_t n = r.u64(); uint16_t min_k = r.u16(); uint8_t nl = r.u8(); r.u8();
+  c.eq("kll.n", n, (uint64_t)sk.get_n()); c.ok("kll.min_k<=k", min_k <= k && min_k >= 8, "min_k " + str(min_k)); c.eq("kll.min_k", (int)min_k, (int)sk.min_k_);
+  std::vector<uint32_t> lv(nl); for (uint8_t i = 0; i < nl; ++i) lv[i] = r.u32();
+  K mn = IO::get(r), mx = IO::get(r);
+  if (!c.ok("kll.header-in-bounds", r.ok && nl >= 1, "image too short")) return;
+  c.eq("kll.min", mn, IO::key(sk.get_min_item())); c.eq("kll.max", mx, IO::key(sk.get_max_item()));
+  c.ok("kll.levels-nondecreasing", std::is_sorted(lv.begin(), lv.end()), "level offsets decrease");
+  // the last offset (= capacity) is not stored: the last level takes the items that remain; the retained count is what the API reports
+  const uint32_t ret = sk.get_num_retained(); const uint32_t cap = lv[0] + ret;
+  if (!c.ok("kll.level-offsets-within-capacity", lv[nl - 1] <= cap, "last level offset " + str(lv[nl - 1]) + " capacity " + str(cap))) return;
+  std::vector<std::pair<K, uint64_t> > items; uint64_t wsum = 0; bool l0ok = true;
+  for (uint8_t l = 0; l < nl; ++l) { uint32_t from = lv[l], to = l + 1 < nl ? lv[l + 1] : cap;
+    for (uint32_t i = from; i < to && r.ok; ++i) { K v = IO::get(r); if (l == 0 && i > from && v < items.back().first) l0ok = false; items.push_back(std::make_pair(v, (uint64_t)1 << l)); wsum += (uint64_t)1 << l; } }
+  c.ok("kll.image-fully-consumed", r.ok && r.at_end(), "trailing or missing bytes: consumed " + str(r.p) + " of " + str(img.size()));
+  c.eq("kll.weights-sum==n", wsum, n);
+  c.eq("kll.flag-level-zero-sorted", l0sorted, (bool)sk.is_level_zero_sorted_);
+  if (l0sorted) c.ok("kll.level-zero-sorted-as-flagged", l0ok, "flag says level 0 is sorted but the items are not");
+  std::vector<std::pair<K, uint64_t> > api; for (auto it = sk.begin(); it != sk.end(); ++it) api.push_back(std::make_pair(IO::key((*it).first), (uint64_t)(*it).second));
+  c.ok("kll.item-order==iterator", items == api, "items in image order differ from iteration order");
+  std::sort(items.begin(), items.end()); std::sort(api.begin(), api.end());
+  c.ok("kll.items-and-weights==api", items == api, "items decoded from the image differ from the iterator");
+}
+
+// ---------------- REQ<T> (Java ReqSerDe layout; constants in req_sketch.hpp) ----------------
+// byte 0 preamble ints (2; 4 in estimation mode), 1 serial version 1, 2 family 17, 3 flags (bit2 empty, bit3 high-rank accuracy, bit4 raw items,
+// bit5 level zero sorted), 4-5 k, 6 number of compactors, 7 number of raw items. Estimation mode: N (8), min item, max item. Raw items
+// (n <= 4): the items follow directly. Otherwise each compactor: state (8), section size (float), lg weight (1), number of sections (1),
+// 2 unused, item count (4), items.
+template<class T> void req_any(const Bytes& img, Obj& live, mc::Ctx& c) {
+  typedef typename QuantTypes<T, 1>::Sk Sk; typedef QObj<Sk, T, 1> O; typedef ItemIO<T> IO; typedef typename IO::K K;
+  O* o = dynamic_cast<O*>(&live); if (!o) { c.fail("decoder-type", "unexpected object type"); return; }
+  const Sk& sk = o->sk; Rd r(img);
+  uint8_t pre = r.u8(), ver = r.u8(), famid = r.u8(), flags = r.u8(); uint16_t k = r.u16(); uint8_t nlev = r.u8(), nraw = r.u8();
+  if (!c.ok("req.header-in-bounds", r.ok, "image shorter than 8 bytes")) return;
+  c.eq("req.serial-version", (int)ver, 1); c.eq("req.family-id", (int)famid, 17); c.eq("req.k", (int)k, (int)sk.get_k());
+  const bool empty = flags & 4, hra = flags & 8, raw = flags & 16, l0sorted = flags & 32;
+  c.ok("req.flags-reserved-zero", (flags & 0xc3) == 0, "flags " + str((int)flags));
+  c.eq("req.flag-empty", empty, sk.is_empty()); c.eq("req.flag-high-rank-accuracy", hra, sk.is_HRA());
+  if (empty) { c.eq("req.preamble-ints", (int)pre, 2); c.ok("req.empty-image-is-8-bytes", r.at_end(), "size " + str(img.size())); return; }
+  c.eq("req.preamble-ints", (int)pre, sk.is_estimation_mode() ? 4 : 2);
+  const bool est = pre == 4; uint64_t n = 0; K mn = K(), mx = K();
+  if (est) { n = r.u64(); mn = IO::get(r); mx = IO::get(r); }
+  c.eq("req.num-compactors", (int)nlev, (int)sk.compactors_.size());
+  std::vector<std::pair<K, uint64_t> > items; uint64_t wsum = 0;
+  if (raw) {
+    c.ok("req.raw-items-only-when-n<=4", sk.get_n() <= 4 && !est, "n " + str(sk.get_n()));
+    for (uint8_t i = 0; i < nraw && r.ok; ++i) { items.push_back(std::make_pair(IO::get(r), (uint64_t)1)); ++wsum; }
+  } else {
+    c.eq("req.num-raw-items-zero", (int)nraw, 0);
+    for (uint8_t l = 0; l < nlev && r.ok; ++l) {
+      uint64_t state = r.u64(); float ssr = r.f32(); uint8_t lgw = r.u8(), nsec = r.u8(); r.u16(); uint32_t ni = r.u32();
+      if (!r.ok) break;
+      c.eq("req.compactor-lg-weight==level", (int)lgw, (int)l);
+      if (l < sk.compactors_.size()) { const typename Sk::Compactor& cp = sk.compactors_[l];
+        c.eq("req.compactor-state", state, (uint64_t)cp.state_); c.eq("req.compactor-section-size", ssr, cp.section_size_raw_);
+        c.eq("req.compactor-num-sections", (int)nsec, (int)cp.num_sections_); c.eq("req.compactor-num-items", ni, (uint32_t)cp.num_items_); }
+      bool sorted = true;
+      for (uint32_t i = 0; i < ni && r.ok; ++i) { K v = IO::get(r); if (i && v < items.back().first) sorted = false; items.push_back(std::make_pair(v, (uint64_t)1 << lgw)); wsum += (uint64_t)1 << lgw; }
+      if (l > 0 || l0sorted) c.ok("req.compactor-sorted", sorted, "level " + str((int)l) + " is not sorted");
+    }
+  }
+  c.ok("req.image-fully-consumed", r.ok && r.at_end(), "trailing or missing bytes: consumed " + str(r.p) + " of " + str(img.size()));
+  if (!r.ok || items.empty()) { c.ok("req.non-empty-image-has-items", !items.empty(), "no items"); return; }
+  c.eq("req.flag-level-zero-sorted", l0sorted, (bool)sk.compactors_[0].is_sorted());
+  if (!est) { n = wsum; mn = mx = items[0].first; for (size_t i = 0; i < items.size(); ++i) { if (items[i].first < mn) mn = items[i].first; if (mx < items[i].first) mx = items[i].first; } }   // exact mode: N, min and max follow from the items
+  c.eq("req.n", n, (uint64_t)sk.get_n()); c.eq("req.weights-sum==n", wsum, (uint64_t)sk.get_n());
+  c.eq("req.min", mn, IO::key(sk.get_min_item())); c.eq("req.max", mx, IO::key(sk.get_max_item()));
+  c.eq("req.retained", items.size(), (size_t)sk.get_num_retained());
+  std::vector<std::pair<K, uint64_t> > api; size_t guard = items.size() + 4;
+  for (auto it = sk.begin(); !(it == sk.end()) && api.size() < guard; ++it) api.push_back(std::make_pair(IO::key((*it).first), (uint64_t)(*it).second));
+  c.ok("req.item-order==iterator", items == api, "items in image order differ from iteration order");
+  std::sort(items.begin(), items.end()); std::sort(api.begin(), api.end());
+  c.ok("req.items-and-weights==api", items == api, "items decoded from the image differ from the iterator");
+}
+
+// ---------------- classic quantiles<T> (quantiles_sketch.hpp "Serialized sketch layout", Java DoublesSketch compact form) ----------------
+// byte 0 preamble longs (1 empty, 2 otherwise), 1 serial version 3, 2 family 8, 3 flags (bit2 empty, bit3 compact, bit4 sorted), 4-5 k, 6-7 unused;
+// long 1: N; then min, max, the base buffer (N mod 2k items, weight 1) and, for every set bit b of N / 2k, one level of k sorted items of weight 2^(b+1).
+template<class T> void classic_any(const Bytes& img, Obj& live, mc::Ctx& c) {
+  typedef typename QuantTypes<T, 2>::Sk Sk; typedef QObj<Sk, T, 2> O; typedef ItemIO<T> IO; typedef typename IO::K K;
+  O* o = dynamic_cast<O*>(&live); if (!o) { c.fail("decoder-type", "unexpected object type"); return; }
+  const Sk& sk = o->sk; Rd r(img);
+  uint8_t pre = r.u8(), ver = r.u8(), famid = r.u8(), flags = r.u8(); uint16_t k = r.u16(); r.u16();
+  if (!c.ok("classic.header-in-bounds", r.ok, "image shorter than 8 bytes")) return;
+  c.eq("classic.serial-version", (int)ver, 3); c.eq("classic.family-id", (int)famid, 8); c.eq("classic.k", (int)k, (int)sk.get_k());
+  const bool empty = flags & 4, compact = flags & 8, sorted = flags & 16;
+  c.ok("classic.flags-reserved-zero", (flags & 0xe3) == 0, "flags " + str((int)flags));
+  c.eq("classic.flag-empty", empty, sk.is_empty()); c.ok("classic.flag-compact", compact, "the image holds only the used part of the buffers: the compact flag must say so");
+  c.eq("classic.preamble-longs", (int)pre, empty ? 1 : 2);
+  if (empty) { c.ok("classic.empty-image-is-8-bytes", r.at_end(), "size " + str(img.size())); return; }
+  uint64_t n = r.u64(); K mn = IO::get(r), mx = IO::get(r);
+  if (!c.ok("classic.header-in-bounds", r.ok && k >= 1, "image too short")) return;
+  c.eq("classic.n", n, (uint64_t)sk.get_n()); c.eq("classic.min", mn, IO::key(sk.get_min_item())); c.eq("classic.max", mx, IO::key(sk.get_max_item()));
+  std::vector<std::pair<K, uint64_t> > items; uint64_t wsum = 0; bool bbsorted = true, lvsorted = true;
+  const uint64_t bb = n % (2 * (uint64_t)k); uint64_t pattern = n / (2 * (uint64_t)k);
+  for (uint64_t i = 0; i < bb && r.ok; ++i) { K v = IO::get(r); if (i && v < items.back().first) bbsorted = false; items.push_back(std::make_pair(v, (uint64_t)1)); ++wsum; }
+  for (int b = 0; pattern >> b; ++b) if ((pattern >> b) & 1) for (uint16_t i = 0; i < k && r.ok; ++i) { K v = IO::get(r); if (i && v < items.back().first) lvsorted = false; items.push_back(std::make_pair(v, (uint64_t)2 << b)); wsum += (uint64_t)2 << b; }
+  c.ok("classic.image-fully-consumed", r.ok && r.at_end(), "trailing or missing bytes: consumed " + str(r.p) + " of " + str(img.size()));
+  if (!r.ok) return;
+  c.eq("classic.weights-sum==n", wsum, n); c.ok("classic.levels-sorted", lvsorted, "a level is not sorted");
+  if (sorted) c.ok("classic.base-buffer-sorted-as-flagged", bbsorted, "sorted flag set but the base buffer is not");
+  c.eq("classic.retained", items.size(), (size_t)sk.get_num_retained());
+  std::vector<std::pair<K, uint64_t> > api; for (auto it = sk.begin(); it != sk.end(); ++it) api.push_back(std::make_pair(IO::key((*it).first), (uint64_t)(*it).second));
+  c.ok("classic.item-order==iterator", items == api, "items in image order differ from iteration order");
+  std::sort(items.begin(), items.end()); std::sort(api.begin(), api.end());
+  c.ok("classic.items-and-weights==api", items == api, "items decoded from the image differ from the iterator");
+}
+
+// ---------------- theta: uncompressed v3 body (same layout as theta_v3 in decoders.hpp; used for the images serialize_compressed() writes uncompressed) ----------------
+inline void theta_v3_body(const Bytes& img, const CTheta& sk, mc::Ctx& c) {
+  Rd r(img);
+  uint8_t pre = r.u8(), ver = r.u8(), famid = r.u8(); r.u8(); r.u8(); uint8_t flags = r.u8(); uint16_t sh = r.u16();
+  if (!c.ok("theta.header-in-bounds", r.ok, "image shorter than 8 bytes")) return;
+  c.eq("theta.serial-version", (int)ver, 3); c.eq("theta.family-id", (int)famid, 3); c.eq("theta.seed-hash", sh, oracle::seed_hash(datasketches::DEFAULT_SEED));
+  c.ok("theta.flag-compact-readonly", (flags & 8) && (flags & 2), "compact/read-only flags not set"); c.ok("theta.flag-little-endian", !(flags & 1), "big-endian flag set");
+  c.eq("theta.flag-empty", (bool)(flags & 4), sk.is_empty()); c.eq("theta.flag-ordered", (bool)(flags & 16), sk.is_ordered());
+  uint32_t n = 0; uint64_t theta = 0x7fffffffffffffffULL;
+  if (sk.is_empty()) { c.eq("theta.preamble-longs-empty", (int)pre, 1); c.ok("theta.empty-image-is-8-bytes", r.at_end(), "size " + str(img.size())); return; }
+  if (pre == 1) n = 1; else { n = r.u32(); r.u32(); if (pre >= 3) theta = r.u64(); }
+  c.eq("theta.preamble-longs", (int)pre, sk.is_estimation_mode() ? 3 : (sk.get_num_retained() == 1 ? 1 : 2));
+  c.eq("theta.num-entries", n, sk.get_num_retained()); c.eq("theta.theta", theta, sk.get_theta64());
+  if (!c.ok("theta.count-fits-image", r.ok && (uint64_t)n * 8 <= img.size() - r.p, "count " + str(n))) return;
+  std::vector<uint64_t> e(n); for (uint32_t i = 0; i < n; ++i) e[i] = r.u64();
+  c.ok("theta.image-fully-consumed", r.ok && r.at_end(), "trailing or missing bytes");
+  std::vector<uint64_t> api; for (auto it = sk.begin(); it != sk.end(); ++it) api.push_back(*it);
+  c.ok("theta.entries-in-api-order", e == api, "entries in the image differ from iteration order");
+  if (flags & 16) c.ok("theta.ordered-entries-sorted", std::is_sorted(e.begin(), e.end()), "ordered flag set but entries unsorted");
+  for (size_t i = 0; i < e.size(); ++i) if (!(e[i] != 0 && e[i] < theta)) { c.fail("theta.entries-below-theta", "entry " + mc::hex64(e[i])); break; }
+}
+
+// ---------------- theta compressed, serial version 4 (Java CompactSketch "compressed" layout; offsets named in compact_theta_sketch_parser.hpp) ----------------
+// byte 0 preamble longs (1 exact, 2 estimation), 1 serial version 4, 2 family 3, 3 entry bits, 4 number of bytes of the entry count, 5 flags
+// (compact, read-only, ordered; never empty), 6-7 seed hash; estimation: theta (8); then the entry count in that many little-endian bytes;
+// then the deltas between consecutive sorted hashes (the first against 0), entry-bits each, packed most significant bit first, blocks of 8
+// entries take entry-bits bytes, the tail is padded to a whole byte. Unordered, empty and single-item sketches are written uncompressed (v3).
+struct BitRd {   // plain most-significant-bit-first bit reader over the rest of the image
+  Rd& r; uint8_t cur; int left; uint64_t pad_bits_set;
+  explicit BitRd(Rd& rd): r(rd), cur(0), left(0), pad_bits_set(0) {}
+  uint64_t get(int bits) { uint64_t v = 0; for (int i = 0; i < bits; ++i) { if (!left) { cur = r.u8(); left = 8; } v = (v << 1) | ((cur >> 7) & 1); cur = (uint8_t)(cur << 1); --left; } return v; }
+  bool padding_zero() const { return left == 0 || cur == 0; }
+};
+inline void theta_v4(const Bytes& img, Obj& live, mc::Ctx& c) {
+  ThetaObj* o = dynamic_cast<ThetaObj*>(&live); if (!o) { c.fail("decoder-type", "unexpected object type"); return; }
+  const CTheta& sk = o->sk;
+  if (!c.ok("theta4.header-in-bounds", img.size() >= 8, "image shorter than 8 bytes")) return;
+  const bool compressible = sk.is_ordered() && !sk.is_empty() && sk.get_num_retained() > 0 && !(sk.get_num_retained() == 1 && !sk.is_estimation_mode());
+  if (img[1] != 4) { c.ok("theta4.uncompressed-only-for-unordered-empty-single", !compressible, "an ordered multi-entry sketch was written uncompressed"); c.rep.outcome("layout|theta-compressed|v3-fallback"); theta_v3_body(img, sk, c); return; }
+  c.ok("theta4.compressed-only-for-ordered-multi-entry", compressible, "serial version 4 used for an unordered, empty or single-item sketch");
+  Rd r(img);
+  uint8_t pre = r.u8(), ver = r.u8(), famid = r.u8(), ebits = r.u8(), nbytes = r.u8(), flags = r.u8(); uint16_t sh = r.u16();
+  c.eq("theta4.serial-version", (int)ver, 4); c.eq("theta4.family-id", (int)famid, 3); c.eq("theta4.seed-hash", sh, oracle::seed_hash(datasketches::DEFAULT_SEED));
+  c.eq("theta4.seed-hash==api", sh, sk.get_seed_hash());
+  c.ok("theta4.flag-compact-readonly", (flags & 8) && (flags & 2), "compact/read-only flags not set"); c.ok("theta4.flag-little-endian", !(flags & 1), "big-endian flag set");
+  c.ok("theta4.flag-ordered", (flags & 16) != 0, "a compressed image is always ordered"); c.ok("theta4.flag-not-empty", !(flags & 4), "empty flag in a compressed image");
+  c.eq("theta4.preamble-longs", (int)pre, sk.is_estimation_mode() ? 2 : 1);
+  uint64_t theta = 0x7fffffffffffffffULL; if (pre >= 2) theta = r.u64();
+  c.eq("theta4.theta", theta, sk.get_theta64());
+  if (!c.ok("theta4.num-entries-bytes-1..4", nbytes >= 1 && nbytes <= 4, str((int)nbytes)) || !c.ok("theta4.entry-bits-1..63", ebits >= 1 && ebits <= 63, str((int)ebits))) return;
+  uint32_t n = 0; for (uint8_t i = 0; i < nbytes; ++i) n |= (uint32_t)r.u8() << (8 * i);
+  c.eq("theta4.num-entries", n, sk.get_num_retained());
+  if (!c.ok("theta4.count-fits-image", r.ok && ((uint64_t)n * ebits + 7) / 8 <= img.size() - r.p, "count " + str(n))) return;
+  BitRd br(r); std::vector<uint64_t> e(n); uint64_t prev = 0, ored = 0;
+  for (uint32_t i = 0; i < n; ++i) { uint64_t d = br.get(ebits); ored |= d; prev += d; e[i] = prev; }
+  c.ok("theta4.image-fully-consumed", r.ok && r.at_end(), "trailing or missing bytes: consumed " + str(r.p) + " of " + str(img.size()));
+  c.ok("theta4.padding-bits-zero", br.padding_zero(), "bits after the last delta are set");
+  c.ok("theta4.entry-bits-needed", ebits == 64 || (ored >> (ebits - 1)) == 1, "entry bits " + str((int)ebits) + " but no delta uses the top bit");
+  c.ok("theta4.num-entries-bytes-needed", nbytes == 1 || (n >> (8 * (nbytes - 1))) != 0, "count bytes " + str((int)nbytes) + " for " + str(n) + " entries");
+  std::vector<uint64_t> api; for (auto it = sk.begin(); it != sk.end(); ++it) api.push_back(*it);
+  c.ok("theta4.entries==sorted-api-entries", e == api && std::is_sorted(api.begin(), api.end()), "the decoded entries differ from the sorted entry list");
+  for (size_t i = 0; i < e.size(); ++i) if (!(e[i] != 0 && e[i] < theta)) { c.fail("theta4.entries-below-theta", "entry " + mc::hex64(e[i])); break; }
+  c.rep.outcome("layout|theta-compressed|v4");
+}
+
+// ---------------- theta serial versions 1 and 2, synthesised from the documentation (Java ForwardCompatibility / PreambleUtil) ----------------
+// v1: always 3 preamble longs: byte 0 = 3, byte 1 = 1, byte 2 = 3, bytes 3-7 unused; long 1: count (4) + unused (4); long 2: theta; sorted hashes.
+//     No empty flag and no seed hash: empty means count 0 and theta = max.
+// v2: byte 0 = 1 (empty), 2 (exact: count) or 3 (count and theta), byte 1 = 2, byte 2 = 3, bytes 3-4 unused, byte 5 flags, 6-7 seed hash; sorted hashes.
+inline void put_le(Bytes& b, uint64_t v, int nbytes) { for (int i = 0; i < nbytes; ++i) b.push_back((uint8_t)(v >> (8 * i))); }
+struct ThetaView { bool empty, ordered; uint64_t theta; uint16_t seed_hash; std::vector<uint64_t> e; };
+template<class Sk> ThetaView theta_view(const Sk& sk) { ThetaView v; v.empty = sk.is_empty(); v.ordered = sk.is_ordered(); v.theta = sk.get_theta64(); v.seed_hash = sk.get_seed_hash(); for (auto it = sk.begin(); it != sk.end(); ++it) v.e.push_back(*it); return v; }
+inline Bytes theta_synth(int version, bool empty, uint64_t theta, const std::vector<uint64_t>& sorted) {
+  const uint64_t MAXT = 0x7fffffffffffffffULL; Bytes b; const uint32_t n = (uint32_t)sorted.size();
+  if (version == 1) { b.push_back(3); b.push_back(1); b.push_back(3); put_le(b, 0, 5); put_le(b, n, 4); put_le(b, 0, 4); put_le(b, empty ? MAXT : theta, 8); }
+  else {
+    const uint8_t pre = empty ? 1 : theta < MAXT ? 3 : 2;
+    b.push_back(pre); b.push_back(2); b.push_back(3); b.push_back(0); b.push_back(0);
+    b.push_back((uint8_t)(2 | 8 | 16 | (empty ? 4 : 0)));   // read-only, compact, ordered (+ empty)
+    put_le(b, oracle::seed_hash(datasketches::DEFAULT_SEED), 2);
+    if (pre >= 2) { put_le(b, n, 4); put_le(b, 0, 4); } if (pre >= 3) put_le(b, theta, 8);
+  }
+  if (!empty) for (uint32_t i = 0; i < n; ++i) put_le(b, sorted[i], 8);
+  return b;
+}
+inline void theta_legacy_synth(const Bytes&, Obj& live, mc::Ctx& c) {
+  ThetaObj* o = dynamic_cast<ThetaObj*>(&live); if (!o) { c.fail("decoder-type", "unexpected object type"); return; }
+  const CTheta& sk = o->sk; const uint64_t MAXT = 0x7fffffffffffffffULL;
+  ThetaView want = theta_view(sk); std::sort(want.e.begin(), want.e.end());
+  if (!want.empty && want.e.empty() && want.theta == MAXT) { c.rep.outcome("legacy-synth|not-representable"); return; }   // the old formats read "no entries, theta 1.0" as empty
+  for (int version = 1; version <= 2; ++version) {
+    const Bytes b = theta_synth(version, want.empty, want.theta, want.e); const std::string v = "v" + str(version);
+    for (int path = 0; path < 3; ++path) {
+      const std::string pn = path == 0 ? "bytes" : path == 1 ? "stream" : "wrap";
+      try {
+        ThetaView got;
+        if (path == 0) { CTheta s = CTheta::deserialize(b.data(), b.size(), datasketches::DEFAULT_SEED, A64(1)); got = theta_view(s); }
+        else if (path == 1) { std::istringstream is(std::string(b.begin(), b.end())); CTheta s = CTheta::deserialize(is, datasketches::DEFAULT_SEED, A64(1)); got = theta_view(s); }
+        else { WTheta s = WTheta::wrap(b.data(), b.size()); got = theta_view(s); }
+        c.eq("theta-legacy-synth." + v + "-emptiness", got.empty, want.empty);
+        c.eq("theta-legacy-synth." + v + "-theta", got.theta, want.empty ? MAXT : want.theta);
+        c.ok("theta-legacy-synth." + v + "-entries", got.e == want.e, pn + ": " + str(got.e.size()) + " entries read, " + str(want.e.size()) + " written");
+        c.ok("theta-legacy-synth." + v + "-ordered", got.ordered, pn + ": an old-format image is always ordered");
+        c.eq("theta-legacy-synth." + v + "-seed-hash", got.seed_hash, oracle::seed_hash(datasketches::DEFAULT_SEED));
+      } catch (const std::exception& e) { c.fail("theta-legacy-synth." + v + "-readable", pn + ": " + e.what() + " image " + hexs(b, 40)); }
+    }
+  }
+  c.rep.outcome(want.empty ? "legacy-synth|empty" : want.theta < MAXT ? "legacy-synth|estimation" : want.e.size() == 1 ? "legacy-synth|single" : "legacy-synth|exact");
+}
+inline void theta_v3_and_legacy(const Bytes& img, Obj& live, mc::Ctx& c) { theta_v3(img, live, c); theta_legacy_synth(img, live, c); }
+
+// ---------------- tuple compact, serial version 3 (Java tuple CompactSketch layout: the theta v3 preamble with a sketch type byte) ----------------
+// byte 0 preamble longs (1 empty or single exact entry, 2 exact, 3 estimation), 1 serial version 3, 2 family 9, 3 sketch type 1, 4 unused,
+// 5 flags (bit1 read-only, bit2 empty, bit3 compact, bit4 ordered), 6-7 seed hash; long 1: count (4) + unused (4); long 2: theta;
+// then the entries, each a 64-bit hash followed by its summary as written by the summary serde.
+template<class S> void tuple_any(const Bytes& img, Obj& live, mc::Ctx& c) {
+  typedef TupleObj<S> O; typedef ItemIO<S> IO; typedef typename IO::K K;
+  O* o = dynamic_cast<O*>(&live); if (!o) { c.fail("decoder-type", "unexpected object type"); return; }
+  const typename O::CT& sk = o->sk; Rd r(img);
+  uint8_t pre = r.u8(), ver = r.u8(), famid = r.u8(), type = r.u8(); r.u8(); uint8_t flags = r.u8(); uint16_t sh = r.u16();
+  if (!c.ok("tuple.header-in-bounds", r.ok, "image shorter than 8 bytes")) return;
+  c.eq("tuple.serial-version", (int)ver, 3); c.eq("tuple.family-id", (int)famid, 9); c.eq("tuple.sketch-type", (int)type, 1);
+  c.eq("tuple.seed-hash", sh, oracle::seed_hash(datasketches::DEFAULT_SEED)); c.eq("tuple.seed-hash==api", sh, sk.get_seed_hash());
+  c.ok("tuple.flag-compact-readonly", (flags & 8) && (flags & 2), "compact/read-only flags not set"); c.ok("tuple.flag-little-endian", !(flags & 1), "big-endian flag set");
+  c.eq("tuple.flag-empty", (bool)(flags & 4), sk.is_empty()); c.eq("tuple.flag-ordered", (bool)(flags & 16), sk.is_ordered());
+  const uint64_t MAXT = 0x7fffffffffffffffULL; uint32_t n = 0; uint64_t theta = MAXT;
+  const bool est = sk.get_theta64() < MAXT && !sk.is_empty();
+  c.eq("tuple.preamble-longs", (int)pre, est ? 3 : (sk.is_empty() || sk.get_num_retained() == 1) ? 1 : 2);
+  if (sk.is_empty()) { c.ok("tuple.empty-image-is-8-bytes", r.at_end(), "size " + str(img.size())); return; }
+  if (pre == 1) n = 1; else { n = r.u32(); r.u32(); if (pre >= 3) theta = r.u64(); }
+  c.eq("tuple.num-entries", n, sk.get_num_retained()); c.eq("tuple.theta", theta, sk.get_theta64());
+  if (!c.ok("tuple.count-fits-image", r.ok && (uint64_t)n * 8 <= img.size() - r.p, "count " + str(n))) return;
+  std::vector<std::pair<uint64_t, K> > e; for (uint32_t i = 0; i < n && r.ok; ++i) { uint64_t h = r.u64(); K s = IO::get(r); e.push_back(std::make_pair(h, s)); }
+  c.ok("tuple.image-fully-consumed", r.ok && r.at_end(), "trailing or missing bytes: consumed " + str(r.p) + " of " + str(img.size()));
+  std::vector<std::pair<uint64_t, K> > api; for (auto it = sk.begin(); it != sk.end(); ++it) api.push_back(std::make_pair((uint64_t)it->first, IO::key(it->second)));
+  c.ok("tuple.entries-and-summaries-in-api-order", e == api, "entries in the image differ from iteration order");
+  bool sorted = true; for (size_t i = 1; i < e.size(); ++i) if (e[i].first < e[i - 1].first) sorted = false;
+  if (flags & 16) c.ok("tuple.ordered-entries-sorted", sorted, "ordered flag set but entries unsorted");
+  for (size_t i = 0; i < e.size(); ++i) if (!(e[i].first != 0 && e[i].first < theta)) { c.fail("tuple.entries-below-theta", "entry " + mc::hex64(e[i].first)); break; }
+}
+
+// ---------------- array of doubles compact (Java ArrayOfDoublesCompactSketch layout) ----------------
+// byte 0 preamble longs 1, 1 serial version 1, 2 family 9, 3 sketch type 3, 4 flags (bit2 empty, bit3 has entries, bit4 ordered), 5 number of
+// values per entry, 6-7 seed hash; long 1: theta; if there are entries: count (4) + unused (4), all hashes, then all values (count x num values doubles).
+inline void aod_any(const Bytes& img, Obj& live, mc::Ctx& c) {
+  AodObj* o = dynamic_cast<AodObj*>(&live); if (!o) { c.fail("decoder-type", "unexpected object type"); return; }
+  const AodObj::CA& sk = o->sk; Rd r(img);
+  uint8_t pre = r.u8(), ver = r.u8(), famid = r.u8(), type = r.u8(), flags = r.u8(), nv = r.u8(); uint16_t sh = r.u16(); uint64_t theta = r.u64();
+  if (!c.ok("aod.header-in-bounds", r.ok, "image shorter than 16 bytes")) return;
+  c.eq("aod.preamble-longs", (int)pre, 1); c.eq("aod.serial-version", (int)ver, 1); c.eq("aod.family-id", (int)famid, 9); c.eq("aod.sketch-type", (int)type, 3);
+  c.eq("aod.num-values", (int)nv, (int)sk.get_num_values()); c.eq("aod.seed-hash", sh, oracle::seed_hash(datasketches::DEFAULT_SEED)); c.eq("aod.seed-hash==api", sh, sk.get_seed_hash());
+  c.ok("aod.flags-reserved-zero", (flags & 0xe3) == 0, "flags " + str((int)flags));
+  c.eq("aod.flag-empty", (bool)(flags & 4), sk.is_empty()); c.eq("aod.flag-has-entries", (bool)(flags & 8), sk.get_num_retained() > 0); c.eq("aod.flag-ordered", (bool)(flags & 16), sk.is_ordered());
+  c.eq("aod.theta", theta, sk.get_theta64());
+  uint32_t n = 0; if (flags & 8) { n = r.u32(); r.u32(); }
+  c.eq("aod.num-entries", n, sk.get_num_retained());
+  if (!c.ok("aod.count-fits-image", r.ok && (uint64_t)n * 8 * (1 + (uint64_t)nv) <= img.size() - r.p, "count " + str(n))) return;
+  std::vector<uint64_t> h(n); for (uint32_t i = 0; i < n; ++i) h[i] = r.u64();
+  std::vector<double> v((size_t)n * nv); for (size_t i = 0; i < v.size(); ++i) v[i] = r.f64();
+  c.ok("aod.image-fully-consumed", r.ok && r.at_end(), "trailing or missing bytes: consumed " + str(r.p) + " of " + str(img.size()));
+  std::vector<uint64_t> ah; std::vector<double> av;
+  for (auto it = sk.begin(); it != sk.end(); ++it) { ah.push_back(it->first); for (uint8_t j = 0; j < it->second.size(); ++j) av.push_back(it->second[j]); }
+  c.ok("aod.hashes-in-api-order", h == ah, "hashes in the image differ from iteration order"); c.ok("aod.values-in-api-order", v == av, "values in the image differ from iteration order");
+  if (flags & 16) c.ok("aod.ordered-entries-sorted", std::is_sorted(h.begin(), h.end()), "ordered flag set but entries unsorted");
+  for (size_t i = 0; i < h.size(); ++i) if (!(h[i] != 0 && h[i] < theta)) { c.fail("aod.entries-below-theta", "entry " + mc::hex64(h[i])); break; }
+}
+
+// ---------------- HLL (byte offsets named in hll/include/HllUtil.hpp; Java hll PreambleUtil layouts) ----------------
+// byte 0 preamble ints (LIST 2, SET 3, HLL 10), 1 serial version 1, 2 family 7, 3 lg_k, 4 lg of the coupon / aux array length in ints, 5 flags
+// (bit2 empty, bit3 compact, bit4 out of order, bit5 started full size), 6 LIST: coupon count / HLL: cur_min, 7 mode: low 2 bits current mode
+// (LIST 0, SET 1, HLL 2), next 2 bits target type (HLL_4 0, HLL_6 1, HLL_8 2).
+// LIST: coupons from byte 8 (compact: count of them; updatable: 2^lg_arr ints). SET: count int at 8, coupons from 12 (compact: count; updatable: 2^lg_arr).
+// HLL: HIP accumulator (8), KxQ0 (16), KxQ1 (24) doubles, number of registers at cur_min (32), aux count (36), registers from 40: HLL_8 one byte each;
+// HLL_6 six bits each, little-endian bit order, 3k/4+1 bytes; HLL_4 a nibble each (even slot low nibble) holding value - cur_min, 15 = look in the
+// aux map; then for HLL_4 the aux map as (slot | value << 26) ints (compact: aux count of them; updatable: the whole 2^lg_arr table).
+inline void hll_any(const Bytes& img, Obj& live, mc::Ctx& c) {
+  HllObj* o = dynamic_cast<HllObj*>(&live); if (!o) { c.fail("decoder-type", "unexpected object type"); return; }
+  const Hll& sk = o->sk; const bool upd = o->updatable; Rd r(img);
+  uint8_t pre = r.u8(), ver = r.u8(), famid = r.u8(), lgk = r.u8(), lgarr = r.u8(), flags = r.u8(), b6 = r.u8(), mb = r.u8();
+  if (!c.ok("hll.header-in-bounds", r.ok, "image shorter than 8 bytes")) return;
+  c.eq("hll.serial-version", (int)ver, 1); c.eq("hll.family-id", (int)famid, 7); c.eq("hll.lg-k", (int)lgk, (int)sk.get_lg_config_k());
+  const int mode = mb & 3, tgt = (mb >> 2) & 3;
+  c.eq("hll.cur-mode", mode, (int)sk.get_current_mode()); c.eq("hll.target-type", tgt, (int)sk.get_target_type()); c.ok("hll.mode-byte-high-bits-zero", (mb >> 4) == 0, "mode byte " + str((int)mb));
+  c.eq("hll.flag-empty", (bool)(flags & 4), sk.is_empty()); c.eq("hll.flag-compact", (bool)(flags & 8), !upd); c.eq("hll.flag-out-of-order", (bool)(flags & 16), sk.is_out_of_order_flag());
+  c.ok("hll.flag-little-endian", !(flags & 1), "big-endian flag set"); c.ok("hll.flags-reserved-zero", (flags & 0xc2) == 0, "flags " + str((int)flags));
+  if (!c.ok("hll.lg-k-in-range", lgk >= 4 && lgk <= 21, str((int)lgk)) || !c.ok("hll.lg-arr-in-range", lgarr <= 26, str((int)lgarr))) return;
+  std::vector<uint32_t> got;   // logical content: coupons, or (slot | value << 26) for every non-zero register
+  if (mode == 0 || mode == 1) {
+    c.eq("hll.preamble-ints", (int)pre, mode == 0 ? 2 : 3);
+    uint32_t count = mode == 0 ? b6 : r.u32();
+    const uint64_t ints = upd ? (uint64_t)1 << lgarr : count;
+    if (!c.ok("hll.coupon-array-fits-image", r.ok && ints * 4 <= img.size() - r.p, "ints " + str(ints))) return;
+    for (uint64_t i = 0; i < ints; ++i) { uint32_t cp = r.u32(); if (cp != 0) got.push_back(cp); else if (!upd) c.fail("hll.compact-coupons-non-zero", "an empty coupon in a compact image"); }
+    c.eq("hll.coupon-count", (size_t)count, got.size());
+    for (size_t i = 0; i < got.size(); ++i) if ((got[i] >> 26) == 0) { c.fail("hll.coupon-value-non-zero", "coupon " + str(got[i])); break; }
+    const CouponList<A8>* cl = static_cast<const CouponList<A8>*>(sk.sketch_impl);
+    c.eq("hll.coupon-count==api", count, cl->getCouponCount());
+    std::vector<uint32_t> api; for (auto it = cl->begin(false); it != cl->end(); ++it) api.push_back(*it);
+    std::sort(got.begin(), got.end()); std::sort(api.begin(), api.end());
+    c.ok("hll.image-fully-consumed", r.ok && r.at_end(), "trailing or missing bytes: consumed " + str(r.p) + " of " + str(img.size()));
+    c.ok("hll.coupons==api", got == api, "coupons in the image differ from the sketch's");
+    c.rep.outcome(std::string("layout|hll|") + (mode == 0 ? "list" : "set") + (upd ? "|updatable" : "|compact"));
+    return;
+  }
+  if (!c.ok("hll.mode-known", mode == 2, "mode " + str(mode)) || !c.ok("hll.type-known", tgt <= 2, "type " + str(tgt))) return;
+  c.eq("hll.preamble-ints", (int)pre, 10);
+  const uint8_t cur_min = b6; const double hip = r.f64(), kxq0 = r.f64(), kxq1 = r.f64(); const uint32_t nacm = r.u32(), auxc = r.u32();
+  const uint32_t k = (uint32_t)1 << lgk; const uint32_t arr = tgt == 2 ? k : tgt == 1 ? (k * 3) / 4 + 1 : k / 2;
+  if (!c.ok("hll.register-array-fits-image", r.ok && arr <= img.size() - r.p, "bytes " + str(arr))) return;
+  const uint8_t* a = img.data() + r.p; r.skip(arr);
+  std::vector<int> val(k, 0); std::vector<uint32_t> exc_slots;
+  for (uint32_t i = 0; i < k; ++i) {
+    if (tgt == 2) val[i] = a[i];
+    else if (tgt == 1) { const uint32_t bit = i * 6; const uint32_t w = (uint32_t)a[bit >> 3] | ((uint32_t)a[(bit >> 3) + 1] << 8); val[i] = (w >> (bit & 7)) & 0x3f; }
+    else { const int nib = (i & 1) ? a[i >> 1] >> 4 : a[i >> 1] & 0xf; if (nib == 15) { val[i] = -1; exc_slots.push_back(i); } else val[i] = nib + cur_min; }
+  }
+  if (tgt == 0) {
+    static const uint8_t LG_AUX[] = {0, 2, 2, 2, 2, 2, 2, 3, 3, 3, 4, 4, 5, 5, 6, 7, 8, 9, 10, 11, 12, 13};
+    const uint64_t ints = !upd ? auxc : (uint64_t)1 << (auxc > 0 ? lgarr : LG_AUX[lgk]);
+    if (!c.ok("hll.aux-array-fits-image", r.ok && ints * 4 <= img.size() - r.p, "ints " + str(ints))) return;
+    std::map<uint32_t, int> aux;
+    for (uint64_t i = 0; i < ints; ++i) { uint32_t p = r.u32(); if (p == 0) { if (!upd) c.fail("hll.compact-aux-non-zero", "an empty pair in a compact aux list"); continue; }
+      const uint32_t slot = p & 0x3ffffff; const int v = (int)(p >> 26); if (aux.count(slot)) c.fail("hll.aux-slot-unique", "slot " + str(slot) + " twice"); aux[slot] = v;
+      c.ok("hll.aux-slot-in-range", slot < k, "slot " + str(slot)); c.ok("hll.aux-value-is-exception", v - (int)cur_min >= 15, "aux value " + str(v) + " cur_min " + str((int)cur_min)); }
+    c.eq("hll.aux-count", (size_t)auxc, aux.size());
+    c.eq("hll.aux-count==exception-nibbles", aux.size(), exc_slots.size());
+    for (size_t i = 0; i < exc_slots.size(); ++i) { std::map<uint32_t, int>::iterator it = aux.find(exc_slots[i]); if (it == aux.end()) { c.fail("hll.aux-covers-exception-nibbles", "slot " + str(exc_slots[i])); val[exc_slots[i]] = 0; } else val[exc_slots[i]] = it->second; }
+  } else c.eq("hll.aux-count", auxc, 0u);
+  c.ok("hll.image-fully-consumed", r.ok && r.at_end(), "trailing or missing bytes: consumed " + str(r.p) + " of " + str(img.size()));
+  int mn = 64; uint32_t at_min = 0; double s0 = 0, s1 = 0;
+  for (uint32_t i = 0; i < k; ++i) { const int v = val[i]; if (v < mn) { mn = v; at_min = 0; } if (v == mn) ++at_min; if (v < 32) s0 += std::ldexp(1.0, -v); else s1 += std::ldexp(1.0, -v); if (v > 0) got.push_back(((uint32_t)v << 26) | i); }
+  const HllArray<A8>* ha = static_cast<const HllArray<A8>*>(sk.sketch_impl);
+  c.eq("hll.cur-min", (int)cur_min, (int)ha->getCurMin()); c.eq("hll.num-at-cur-min", nacm, ha->getNumAtCurMin());
+  c.eq("hll.hip-accum", hip, ha->getHipAccum()); c.eq("hll.kxq0", kxq0, ha->getKxQ0()); c.eq("hll.kxq1", kxq1, ha->getKxQ1());
+  // HLL_4 stores values relative to cur_min, the smallest register; HLL_6 and HLL_8 store absolute values: cur_min stays 0 and the count is that of the empty registers
+  uint32_t zeros = 0; for (uint32_t i = 0; i < k; ++i) if (val[i] == 0) ++zeros;
+  if (tgt == 0) { c.eq("hll.cur-min==min-register", (int)cur_min, mn); c.eq("hll.num-at-cur-min==registers", nacm, at_min); }
+  else { c.eq("hll.cur-min==0-for-hll6-hll8", (int)cur_min, 0); c.eq("hll.num-at-cur-min==empty-registers", nacm, zeros); }
+  c.near("hll.kxq0==registers", kxq0, s0, 1e-9); c.near("hll.kxq1==registers", kxq1, s1, 1e-9);
+  if (!(flags & 16)) c.eq("hll.hip-accum==estimate", hip, sk.get_estimate());   // in-order HLL mode: the estimate is the HIP accumulator
+  AuxHashMap<A8>* am = ha->getAuxHashMap(); c.eq("hll.aux-count==api", auxc, am ? am->getAuxCount() : 0u);
+  std::vector<uint32_t> api; for (auto it = ha->begin(false); it != ha->end(); ++it) api.push_back(*it);
+  std::sort(got.begin(), got.end()); std::sort(api.begin(), api.end());
+  c.ok("hll.registers==api", got == api, "register values in the image differ from the sketch's");
+  c.rep.outcome(std::string("layout|hll|hll") + str(tgt == 0 ? 4 : tgt == 1 ? 6 : 8) + (upd ? "|updatable" : "|compact") + (auxc ? "|aux" : "") + (cur_min ? "|curmin>0" : ""));
+}
+
+// ---------------- CPC preamble (Java cpc PreambleUtil: field offsets per format; the payload streams are table-compressed) ----------------
+// byte 0 preamble ints, 1 serial version 1, 2 family 16, 3 lg_k, 4 first interesting column, 5 flags (bit1 compressed, bit2 HIP registers present,
+// bit3 surprising-value table present, bit4 window present), 6-7 seed hash. Empty: 2 ints. Otherwise: number of coupons; if table AND window:
+// number of table entries, then (if HIP) KxP and HIP accumulator doubles; table length in words (if table); window length in words (if window);
+// if HIP and not both streams: KxP, HIP accumulator; then the window words, then the table words. Nothing else.
+inline void cpc_any(const Bytes& img, Obj& live, mc::Ctx& c) {
+  CpcObj* o = dynamic_cast<CpcObj*>(&live); if (!o) { c.fail("decoder-type", "unexpected object type"); return; }
+  const Cpc& sk = o->sk; Rd r(img);
+  uint8_t pre = r.u8(), ver = r.u8(), famid = r.u8(), lgk = r.u8(), fic = r.u8(), flags = r.u8(); uint16_t sh = r.u16();
+  if (!c.ok("cpc.header-in-bounds", r.ok, "image shorter than 8 bytes")) return;
+  c.eq("cpc.serial-version", (int)ver, 1); c.eq("cpc.family-id", (int)famid, 16); c.eq("cpc.lg-k", (int)lgk, (int)sk.get_lg_k());
+  c.eq("cpc.first-interesting-column", (int)fic, (int)sk.first_interesting_column); c.eq("cpc.seed-hash", sh, oracle::seed_hash(datasketches::DEFAULT_SEED));
+  const bool hip = flags & 4, table = flags & 8, window = flags & 16;
+  c.ok("cpc.flag-compressed", (flags & 2) != 0, "compressed flag not set"); c.ok("cpc.flag-little-endian", !(flags & 1), "big-endian flag set"); c.ok("cpc.flags-reserved-zero", (flags & 0xe0) == 0, "flags " + str((int)flags));
+  c.eq("cpc.flag-hip==not-merged", hip, !sk.was_merged);
+  const uint32_t numc = sk.get_num_coupons(); c.eq("cpc.empty==no-coupons", sk.is_empty(), numc == 0);
+  if (numc == 0) { c.eq("cpc.preamble-ints", (int)pre, 2); c.ok("cpc.empty-has-no-streams", !table && !window, "stream flags on an empty sketch"); c.ok("cpc.image-fully-consumed", r.at_end(), "size " + str(img.size())); c.rep.outcome("layout|cpc|empty"); return; }
+  c.eq("cpc.preamble-ints", (int)pre, 3 + (hip ? 4 : 0) + (table ? 1 : 0) + (table && window ? 1 : 0) + (window ? 1 : 0));
+  const uint32_t nc = r.u32(); c.eq("cpc.num-coupons", nc, numc);
+  uint32_t nsv = nc, tw = 0, ww = 0; double kxp = 0, acc = 0;
+  if (table && window) { nsv = r.u32(); if (hip) { kxp = r.f64(); acc = r.f64(); } }
+  if (table) tw = r.u32(); if (window) ww = r.u32();
+  if (hip && !(table && window)) { kxp = r.f64(); acc = r.f64(); }
+  c.ok("cpc.preamble-ints-account-for-the-fields", r.ok && r.p == (size_t)pre * 4, "fields end at byte " + str(r.p) + ", preamble ints " + str((int)pre));
+  c.ok("cpc.stream-lengths-account-for-image", r.ok && ((uint64_t)pre + tw + ww) * 4 == img.size(), "preamble " + str((int)pre) + " + table " + str(tw) + " + window " + str(ww) + " words, image " + str(img.size()) + " bytes");
+  if (table) c.ok("cpc.table-stream-non-empty", tw > 0, "table flag with zero words"); if (window) c.ok("cpc.window-stream-non-empty", ww > 0, "window flag with zero words");
+  // flavour follows from (lg_k, coupons): sparse / hybrid images carry only the table (all coupons), pinned / sliding carry the window and the table if it has entries
+  const uint64_t kk = (uint64_t)1 << lgk; const bool windowed = (uint64_t)numc * 2 >= kk;
+  c.eq("cpc.flag-window==pinned-or-sliding", window, windowed);
+  if (!windowed) c.ok("cpc.flag-table-in-sparse-hybrid", table, "a sparse or hybrid image must carry its coupons in the table");
+  else { c.eq("cpc.num-table-entries", table ? nsv : 0u, (uint32_t)sk.surprising_value_table.get_num_items()); }
+  if (hip) { c.eq("cpc.kxp", kxp, sk.kxp); c.eq("cpc.hip-accum", acc, sk.hip_est_accum); c.eq("cpc.hip-accum==estimate", acc, sk.get_estimate()); }
+  c.rep.outcome(std::string("layout|cpc|") + (windowed ? "windowed" : "sparse-hybrid") + (table ? "|table" : "") + (hip ? "|hip" : "|merged"));
+}
+
+// ---------------- frequent items (Java ItemsSketch layout; constants in frequent_items_sketch.hpp) ----------------
+// byte 0 preamble longs (1 empty, 4 otherwise), 1 serial version 1, 2 family 10, 3 lg max map size, 4 lg current map size, 5 flags (empty: bit 2, and
+// for historical reasons also bit 0), 6-7 unused; long 1: active items (4) + unused (4); long 2: total weight; long 3: offset; then the active
+// counters' weights (8 bytes each), then their items in the same order.
+template<class T> void fi_any(const Bytes& img, Obj& live, mc::Ctx& c) {
+  typedef FiObj<T> O; typedef ItemIO<T> IO; typedef typename IO::K K;
+  O* o = dynamic_cast<O*>(&live); if (!o) { c.fail("decoder-type", "unexpected object type"); return; }
+  const typename O::Sk& sk = o->sk; Rd r(img);
+  uint8_t pre = r.u8(), ver = r.u8(), famid = r.u8(), lgmax = r.u8(), lgcur = r.u8(), flags = r.u8(); r.u16();
+  if (!c.ok("fi.header-in-bounds", r.ok, "image shorter than 8 bytes")) return;
+  c.eq("fi.serial-version", (int)ver, 1); c.eq("fi.family-id", (int)famid, 10);
+  c.eq("fi.lg-max-map-size", (int)lgmax, (int)sk.map.get_lg_max_size()); c.eq("fi.lg-cur-map-size", (int)lgcur, (int)sk.map.get_lg_cur_size());
+  c.near("fi.lg-max-map-size==epsilon", sk.get_epsilon(), 3.5 / std::ldexp(1.0, lgmax), 1e-12);
+  const bool empty = flags & 4;
+  c.eq("fi.flag-empty", empty, sk.is_empty()); c.eq("fi.flag-empty-both-bits", (bool)(flags & 1), empty); c.ok("fi.flags-reserved-zero", (flags & 0xfa) == 0, "flags " + str((int)flags));
+  c.eq("fi.preamble-longs", (int)pre, empty ? 1 : 4);
+  if (empty) { c.ok("fi.empty-image-is-8-bytes", r.at_end(), "size " + str(img.size())); c.eq("fi.total-weight", (uint64_t)0, (uint64_t)sk.get_total_weight()); c.eq("fi.active-items", 0u, (uint32_t)sk.get_num_active_items()); return; }
+  uint32_t active = r.u32(); r.u32(); uint64_t total = r.u64(), offset = r.u64();
+  c.eq("fi.active-items", active, (uint32_t)sk.get_num_active_items()); c.eq("fi.total-weight", total, (uint64_t)sk.get_total_weight()); c.eq("fi.offset", offset, (uint64_t)sk.get_maximum_error());
+  if (!c.ok("fi.count-fits-image", r.ok && (uint64_t)active * 8 <= img.size() - r.p, "active " + str(active))) return;
+  std::vector<uint64_t> w(active); for (uint32_t i = 0; i < active; ++i) w[i] = r.u64();
+  std::vector<std::pair<K, uint64_t> > got; for (uint32_t i = 0; i < active && r.ok; ++i) got.push_back(std::make_pair(IO::get(r), w[i]));
+  c.ok("fi.image-fully-consumed", r.ok && r.at_end(), "trailing or missing bytes: consumed " + str(r.p) + " of " + str(img.size()));
+  if (!r.ok) return;
+  uint64_t wsum = 0;
+  for (size_t i = 0; i < got.size(); ++i) { T item = IO::make(got[i].first); wsum += got[i].second;
+    c.eq("fi.counter==lower-bound", got[i].second, (uint64_t)sk.get_lower_bound(item)); c.eq("fi.counter+offset==upper-bound", got[i].second + offset, (uint64_t)sk.get_upper_bound(item)); c.ok("fi.counter-positive", got[i].second > 0, "zero counter"); }
+  c.ok("fi.counters<=total-weight", wsum <= total, "counters sum " + str(wsum) + " total " + str(total));
+  std::vector<std::pair<K, uint64_t> > api; for (auto it = sk.map.begin(); it != sk.map.end(); ++it) api.push_back(std::make_pair(IO::key((*it).first), (uint64_t)(*it).second));
+  std::sort(got.begin(), got.end()); std::sort(api.begin(), api.end());
+  c.ok("fi.counters==api", got == api, "counters in the image differ from the sketch's");
+  for (size_t i = 1; i < got.size(); ++i) if (got[i].first == got[i - 1].first) { c.fail("fi.items-unique", "item " + kstr(got[i].first) + " twice"); break; }
+}
+
+// ---------------- count-min (count_min.hpp layout table and constants; Java CountMinSketch) ----------------
+// long 0: byte 0 preamble longs (named constants: PREAMBLE_LONGS_SHORT 2 "empty", PREAMBLE_LONGS_FULL 3 "not empty: third long for the total weight"),
+// 1 serial version 1, 2 family 18, 3 flags (bit0 empty), 4-7 unused; long 1: number of buckets (4), number of hashes (1), seed hash (2), unused (1);
+// long 2: total weight; then num_hashes x num_buckets cells of 8 bytes, row by row.
+inline void cm_any(const Bytes& img, Obj& live, mc::Ctx& c) {
+  CmObj* o = dynamic_cast<CmObj*>(&live); if (!o) { c.fail("decoder-type", "unexpected object type"); return; }
+  const CmObj::Sk& sk = o->sk; Rd r(img);
+  uint8_t pre = r.u8(), ver = r.u8(), famid = r.u8(), flags = r.u8(); r.u32(); uint32_t nb = r.u32(); uint8_t nh = r.u8(); uint16_t sh = r.u16(); r.u8();
+  if (!c.ok("cm.header-in-bounds", r.ok, "image shorter than 16 bytes")) return;
+  c.eq("cm.serial-version", (int)ver, 1); c.eq("cm.family-id", (int)famid, 18);
+  const bool empty = flags & 1; c.eq("cm.flag-empty", empty, sk.is_empty()); c.ok("cm.flags-reserved-zero", (flags & 0xfe) == 0, "flags " + str((int)flags));
+  // the header comments disagree with each other about byte 0 ("1 iff empty"; PREAMBLE_LONGS_FULL = 3 for non-empty); the exhaustive list of valid
+  // headers in check_header_validity and the Java CountMinSketch (Family COUNTMIN: 2..2 preamble longs) say 2 for every image, followed by the total weight
+  c.eq("cm.preamble-longs", (int)pre, 2);
+  c.eq("cm.num-buckets", nb, (uint32_t)sk.get_num_buckets()); c.eq("cm.num-hashes", (int)nh, (int)sk.get_num_hashes());
+  c.eq("cm.seed-hash", sh, oracle::seed_hash(sk.get_seed()));
+  if (empty) { c.ok("cm.empty-image-is-16-bytes", r.at_end(), "size " + str(img.size())); c.eq("cm.total-weight", (uint64_t)0, (uint64_t)sk.get_total_weight()); return; }
+  uint64_t total = r.u64(); c.eq("cm.total-weight", total, (uint64_t)sk.get_total_weight());
+  const uint64_t cells = (uint64_t)nb * nh;
+  if (!c.ok("cm.cells-fit-image", r.ok && cells * 8 <= img.size() - r.p, "cells " + str(cells))) return;
+  std::vector<uint64_t> got((size_t)cells); for (size_t i = 0; i < got.size(); ++i) got[i] = r.u64();
+  c.ok("cm.image-fully-consumed", r.ok && r.at_end(), "trailing or missing bytes: consumed " + str(r.p) + " of " + str(img.size()));
+  std::vector<uint64_t> api; for (auto it = sk.begin(); it != sk.end(); ++it) api.push_back((uint64_t)*it);
+  c.ok("cm.cells==api", got == api, "cells in the image differ from the sketch's");
+  for (uint8_t h = 0; h < nh; ++h) { uint64_t row = 0; for (uint32_t b = 0; b < nb; ++b) row += got[(size_t)h * nb + b]; if (row != total) { c.fail("cm.row-sum==total-weight", "row " + str((int)h) + " sums to " + str(row) + ", total " + str(total)); break; } }
+}
+
+// ---------------- VarOpt sketch and union (layout comments in var_opt_sketch_impl.hpp / var_opt_union_impl.hpp) ----------------
+// sketch: byte 0 preamble longs in the low 6 bits (1 empty, 3 warm-up, 4 sampling) and the resize factor (lg) in the top 2, 1 serial version 2,
+// 2 family 13, 3 flags (bit2 empty, bit7 gadget), 4-7 k; long 1: N; long 2: H count (4), R count (4); long 3 (sampling): total weight of R;
+// then H weights (doubles), for a gadget the H marks packed 8 per byte (least significant bit first), then the H items and the R items.
+template<class T> struct VoImg { uint8_t pre, rf, ver, fam, flags; uint32_t k, h, r; uint64_t n; double wr; std::vector<double> w; std::vector<bool> marks; std::vector<typename ItemIO<T>::K> items; };
+template<class T> bool varopt_parse(Rd& r, VoImg<T>& v, mc::Ctx& c, const std::string& p) {
+  uint8_t b0 = r.u8(); v.pre = b0 & 0x3f; v.rf = b0 >> 6; v.ver = r.u8(); v.fam = r.u8(); v.flags = r.u8(); v.k = r.u32(); v.h = v.r = 0; v.n = 0; v.wr = 0;
+  if (!c.ok(p + "header-in-bounds", r.ok, "image shorter than 8 bytes")) return false;
+  c.eq(p + "serial-version", (int)v.ver, 2); c.eq(p + "family-id", (int)v.fam, 13); c.ok(p + "flags-reserved-zero", (v.flags & 0x7b) == 0, "flags " + str((int)v.flags));
+  if (v.flags & 4) { c.eq(p + "preamble-longs", (int)v.pre, 1); return true; }
+  v.n = r.u64(); v.h = r.u32(); v.r = r.u32();
+  if (!c.ok(p + "preamble-longs-3-or-4", v.pre == 3 || v.pre == 4, str((int)v.pre))) return false;
+  if (v.pre == 4) v.wr = r.f64();
+  if (!c.ok(p + "counts-fit-image", r.ok && (uint64_t)v.h * 8 <= r.b.size() - r.p && (uint64_t)v.r <= r.b.size(), "h " + str(v.h) + " r " + str(v.r))) return false;
+  for (uint32_t i = 0; i < v.h; ++i) v.w.push_back(r.f64());
+  if (v.flags & 128) { uint8_t cur = 0; for (uint32_t i = 0; i < v.h; ++i) { if ((i & 7) == 0) cur = r.u8(); v.marks.push_back((cur >> (i & 7)) & 1); } if (v.h & 7) c.ok(p + "mark-padding-bits-zero", (cur >> (v.h & 7)) == 0, "bits after the last mark are set"); }
+  for (uint32_t i = 0; i < v.h + v.r && r.ok; ++i) v.items.push_back(ItemIO<T>::get(r));
+  return r.ok;
+}
+template<class T, class Sk> void varopt_compare(const VoImg<T>& v, const Sk& sk, mc::Ctx& c, const std::string& p) {
+  typedef ItemIO<T> IO;
+  c.eq(p + "k", v.k, (uint32_t)sk.k_); c.eq(p + "resize-factor", (int)v.rf, (int)sk.rf_);
+  const bool empty = v.flags & 4; c.eq(p + "flag-empty", empty, sk.h_ == 0 && sk.r_ == 0); c.eq(p + "flag-gadget", (bool)(v.flags & 128), sk.marks_ != nullptr);
+  if (empty) return;
+  c.eq(p + "n", v.n, (uint64_t)sk.n_); c.eq(p + "h-count", v.h, (uint32_t)sk.h_); c.eq(p + "r-count", v.r, (uint32_t)sk.r_);
+  c.eq(p + "preamble-longs", (int)v.pre, v.r > 0 ? 4 : 3); if (v.r > 0) c.eq(p + "total-weight-r", v.wr, sk.total_wt_r_);
+  c.ok(p + "h+r<=k", (uint64_t)v.h + v.r <= v.k, "h " + str(v.h) + " r " + str(v.r) + " k " + str(v.k)); c.ok(p + "h+r<=n", (uint64_t)v.h + v.r <= v.n, "n " + str(v.n));
+  if (v.h != sk.h_ || v.r != sk.r_ || v.items.size() != (size_t)v.h + v.r) return;
+  bool same = true, marks = true; for (uint32_t i = 0; i < v.h; ++i) { if (v.w[i] != sk.weights_[i] || !(v.items[i] == IO::key(sk.data_[i]))) same = false; if (!v.marks.empty() && v.marks[i] != (bool)sk.marks_[i]) marks = false; if (!(v.w[i] > 0)) c.fail(p + "h-weight-positive", str(v.w[i])); }
+  for (uint32_t j = 0; j < v.r; ++j) if (!(v.items[v.h + j] == IO::key(sk.data_[sk.h_ + 1 + j]))) same = false;
+  c.ok(p + "items-and-weights==sketch", same, "H weights / items or R items differ from the sketch's arrays"); c.ok(p + "marks==sketch", marks, "marks differ");
+}
+template<class T> void varopt_any(const Bytes& img, Obj& live, mc::Ctx& c) {
+  typedef VoObj<T> O; typedef ItemIO<T> IO; typedef typename IO::K K;
+  O* o = dynamic_cast<O*>(&live); if (!o) { c.fail("decoder-type", "unexpected object type"); return; }
+  const typename O::Sk& sk = o->sk; Rd r(img); VoImg<T> v;
+  const bool ok = varopt_parse<T>(r, v, c, "varopt.");
+  c.ok("varopt.image-fully-consumed", ok && r.at_end(), "trailing or missing bytes: consumed " + str(r.p) + " of " + str(img.size()));
+  if (!ok) return;
+  varopt_compare<T>(v, sk, c, "varopt.");
+  c.ok("varopt.flag-gadget-clear", !(v.flags & 128), "a plain sketch is not a gadget");
+  c.eq("varopt.k==api", v.k, (uint32_t)sk.get_k()); c.eq("varopt.n==api", v.n, (uint64_t)sk.get_n()); c.eq("varopt.flag-empty==api", (bool)(v.flags & 4), sk.is_empty()); c.eq("varopt.samples==api", v.h + v.r, (uint32_t)sk.get_num_samples());
+  // what the public iterator reports: the H items with their own weights, then the R items, each with weight total_weight_r / r
+  std::vector<std::pair<K, double> > got, api;
+  for (uint32_t i = 0; i < v.h && i < v.items.size(); ++i) got.push_back(std::make_pair(v.items[i], v.w[i]));
+  for (uint32_t j = 0; j < v.r && v.h + j < v.items.size(); ++j) got.push_back(std::make_pair(v.items[v.h + j], v.wr / v.r));
+  for (auto it = sk.begin(); it != sk.end(); ++it) api.push_back(std::make_pair(IO::key((*it).first), (double)(*it).second));
+  c.ok("varopt.items-and-weights==iterator", got == api, "H items with weights then R items with weight tau differ from iteration");
+  c.rep.outcome(std::string("layout|varopt|") + ((v.flags & 4) ? "empty" : v.r ? (v.h ? "sampling|h+r" : "sampling|r-only") : "warmup"));
+}
+// union: byte 0 preamble longs (1 empty, 4 otherwise), 1 serial version 2, 2 family 14, 3 flags (bit2 empty), 4-7 max k; long 1: N; long 2: outer tau
+// numerator (double); long 3: outer tau denominator (8); then the gadget, a complete VarOpt sketch image.
+inline void varopt_union_any(const Bytes& img, Obj& live, mc::Ctx& c) {
+  VuObj* o = dynamic_cast<VuObj*>(&live); if (!o) { c.fail("decoder-type", "unexpected object type"); return; }
+  const VuObj::Un& un = o->un; Rd r(img);
+  uint8_t pre = r.u8(), ver = r.u8(), famid = r.u8(), flags = r.u8(); uint32_t maxk = r.u32();
+  if (!c.ok("vou.header-in-bounds", r.ok, "image shorter than 8 bytes")) return;
+  c.eq("vou.serial-version", (int)ver, 2); c.eq("vou.family-id", (int)famid, 14); c.eq("vou.max-k", maxk, (uint32_t)un.max_k_); c.ok("vou.flags-reserved-zero", (flags & 0xfb) == 0, "flags " + str((int)flags));
+  const bool empty = flags & 4; c.eq("vou.flag-empty", empty, un.n_ == 0); c.eq("vou.preamble-longs", (int)pre, empty ? 1 : 4);
+  if (empty) { c.ok("vou.empty-image-is-8-bytes", r.at_end(), "size " + str(img.size())); c.rep.outcome("layout|varopt-union|empty"); return; }
+  uint64_t n = r.u64(); double num = r.f64(); uint64_t den = r.u64();
+  c.eq("vou.n", n, (uint64_t)un.n_); c.eq("vou.outer-tau-numerator", num, un.outer_tau_numer_); c.eq("vou.outer-tau-denominator", den, (uint64_t)un.outer_tau_denom_);
+  c.eq("vou.outer-tau==api", den == 0 ? 0.0 : num / (double)den, un.get_outer_tau());
+  VoImg<int64_t> v; const bool ok = varopt_parse<int64_t>(r, v, c, "vou.gadget-");
+  c.ok("vou.image-fully-consumed", ok && r.at_end(), "trailing or missing bytes: consumed " + str(r.p) + " of " + str(img.size()));
+  if (!ok) return;
+  varopt_compare<int64_t>(v, un.gadget_, c, "vou.gadget-");
+  c.ok("vou.gadget-flag-set", (v.flags & 128) || (v.flags & 4), "the union's inner sketch must be flagged as a gadget");
+  c.eq("vou.gadget-k==max-k", v.k, maxk);
+  c.rep.outcome(std::string("layout|varopt-union|") + ((v.flags & 4) ? "gadget-empty" : v.r ? "gadget-sampling" : "gadget-warmup") + (den ? "|outer-tau" : ""));
+}
+
+// ---------------- EBPPS (layout comment in ebpps_sketch_impl.hpp) ----------------
+// byte 0 preamble longs (1 empty, 5 otherwise), 1 serial version 1, 2 family 19, 3 flags (bit2 empty, bit3 has partial item), 4-7 k; long 1: N;
+// long 2: cumulative weight; long 3: max item weight; long 4: rho; long 5: C; then floor(C) items and, if flagged, the partial item.
+template<class T> void ebpps_any(const Bytes& img, Obj& live, mc::Ctx& c) {
+  typedef EbObj<T> O; typedef ItemIO<T> IO; typedef typename IO::K K;
+  O* o = dynamic_cast<O*>(&live); if (!o) { c.fail("decoder-type", "unexpected object type"); return; }
+  const typename O::Sk& sk = o->sk; Rd r(img);
+  uint8_t pre = r.u8(), ver = r.u8(), famid = r.u8(), flags = r.u8(); uint32_t k = r.u32();
+  if (!c.ok("ebpps.header-in-bounds", r.ok, "image shorter than 8 bytes")) return;
+  c.eq("ebpps.serial-version", (int)ver, 1); c.eq("ebpps.family-id", (int)famid, 19); c.eq("ebpps.k", k, (uint32_t)sk.get_k()); c.ok("ebpps.flags-reserved-zero", (flags & 0xf3) == 0, "flags " + str((int)flags));
+  const bool empty = flags & 4, partial = flags & 8; c.eq("ebpps.flag-empty", empty, sk.is_empty()); c.eq("ebpps.preamble-longs", (int)pre, empty ? 1 : 5);
+  if (empty) { c.ok("ebpps.empty-image-is-8-bytes", r.at_end(), "size " + str(img.size())); c.ok("ebpps.empty-has-no-partial-item", !partial, "partial flag on an empty sketch"); return; }
+  uint64_t n = r.u64(); double cw = r.f64(), wmax = r.f64(), rho = r.f64(), cc = r.f64();
+  c.eq("ebpps.n", n, (uint64_t)sk.get_n()); c.eq("ebpps.cumulative-weight", cw, sk.get_cumulative_weight()); c.eq("ebpps.max-weight", wmax, sk.wt_max_); c.eq("ebpps.rho", rho, sk.rho_); c.eq("ebpps.c", cc, sk.get_c());
+  if (!c.ok("ebpps.c-in-range", r.ok && cc >= 0 && cc <= (double)k + 1e-9, "c " + str(cc))) return;
+  const uint32_t full = (uint32_t)std::floor(cc);
+  c.eq("ebpps.flag-partial==fraction-of-c", partial, cc != std::floor(cc));
+  std::vector<K> got; for (uint32_t i = 0; i < full + (partial ? 1u : 0u) && r.ok; ++i) got.push_back(IO::get(r));
+  c.ok("ebpps.image-fully-consumed", r.ok && r.at_end(), "trailing or missing bytes: consumed " + str(r.p) + " of " + str(img.size()));
+  std::vector<K> api; for (size_t i = 0; i < sk.sample_.data_.size(); ++i) api.push_back(IO::key(sk.sample_.data_[i])); if (sk.sample_.partial_item_) api.push_back(IO::key(*sk.sample_.partial_item_));
+  c.eq("ebpps.flag-partial==sketch", partial, (bool)sk.sample_.partial_item_);
+  c.ok("ebpps.items==sketch", got == api, "full items then the partial item differ from the sketch's sample");
+  // public iteration: with a draw below frac(C) the partial item is included, so the iterator must then report exactly the image's items
+  { mc::Tape t; t.raw_fill = mc::raw_from_unit(0.0); mc::TapeScope sc(t); std::vector<K> it; for (auto i = sk.begin(); i != sk.end(); ++i) it.push_back(IO::key(*i)); c.ok("ebpps.items==iterator", it == got, "iteration (partial item included) differs from the image's items: " + str(it.size()) + " vs " + str(got.size())); }
+  c.rep.outcome(std::string("layout|ebpps|") + (partial ? "partial" : "whole"));
+}
+
+// ---------------- t-digest (Java TDigestDouble layout; constants in tdigest.hpp) ----------------
+// byte 0 preamble longs (1 empty or single value, 2 otherwise), 1 serial version 1, 2 sketch type 20, 3-4 k, 5 flags (bit0 empty, bit1 single value,
+// bit2 reverse merge), 6-7 unused; single value: the value; otherwise long 1: number of centroids (4), number of buffered values (4); min, max;
+// the centroids (mean, weight: double + 8-byte count, or float + 4-byte count), then the buffered values.
+template<class T> struct TdW; template<> struct TdW<double> { static uint64_t get(Rd& r) { return r.u64(); } }; template<> struct TdW<float> { static uint64_t get(Rd& r) { return r.u32(); } };
+template<class T> void tdigest_any(const Bytes& img, Obj& live, mc::Ctx& c) {
+  typedef TdObj<T> O; typedef ItemIO<T> IO;
+  O* o = dynamic_cast<O*>(&live); if (!o) { c.fail("decoder-type", "unexpected object type"); return; }
+  const typename O::Sk& sk = o->sk; Rd r(img);
+  uint8_t pre = r.u8(), ver = r.u8(), type = r.u8(); uint16_t k = r.u16(); uint8_t flags = r.u8(); r.u16();
+  if (!c.ok("tdigest.header-in-bounds", r.ok, "image shorter than 8 bytes")) return;
+  c.eq("tdigest.serial-version", (int)ver, 1); c.eq("tdigest.sketch-type", (int)type, 20); c.eq("tdigest.k", (int)k, (int)sk.get_k()); c.ok("tdigest.flags-reserved-zero", (flags & 0xf8) == 0, "flags " + str((int)flags));
+  const bool empty = flags & 1, single = flags & 2; const uint64_t W = sk.get_total_weight();
+  c.eq("tdigest.flag-empty", empty, sk.is_empty()); c.eq("tdigest.flag-single-value", single, W == 1); c.eq("tdigest.flag-reverse-merge", (bool)(flags & 4), (bool)sk.reverse_merge_);
+  c.eq("tdigest.preamble-longs", (int)pre, (empty || single) ? 1 : 2);
+  if (empty) { c.ok("tdigest.empty-image-is-8-bytes", r.at_end(), "size " + str(img.size())); c.eq("tdigest.total-weight", (uint64_t)0, W); c.rep.outcome("layout|tdigest|empty"); return; }
+  if (single) { T v = IO::get(r); c.ok("tdigest.image-fully-consumed", r.ok && r.at_end(), "single value image of " + str(img.size()) + " bytes"); c.eq("tdigest.single-value==min", v, sk.get_min_value()); c.eq("tdigest.single-value==max", v, sk.get_max_value()); c.rep.outcome("layout|tdigest|single"); return; }
+  uint32_t nc = r.u32(), nbuf = r.u32(); T mn = IO::get(r), mx = IO::get(r);
+  c.eq("tdigest.min", mn, sk.get_min_value()); c.eq("tdigest.max", mx, sk.get_max_value());
+  c.eq("tdigest.num-centroids", nc, (uint32_t)sk.centroids_.size()); c.eq("tdigest.num-buffered", nbuf, (uint32_t)sk.buffer_.size());
+  if (!o->with_buffer) c.eq("tdigest.no-buffer-when-not-requested", nbuf, 0u);
+  if (!c.ok("tdigest.counts-fit-image", r.ok && ((uint64_t)nc + nbuf) * sizeof(T) <= img.size() - r.p, "centroids " + str(nc) + " buffered " + str(nbuf))) return;
+  std::vector<std::pair<T, uint64_t> > cen; uint64_t wsum = 0; bool sorted = true, inrange = true;
+  for (uint32_t i = 0; i < nc; ++i) { T m = IO::get(r); uint64_t w = TdW<T>::get(r); if (i && m < cen.back().first) sorted = false; if (!(m >= mn && m <= mx) || w == 0) inrange = false; cen.push_back(std::make_pair(m, w)); wsum += w; }
+  std::vector<T> buf; for (uint32_t i = 0; i < nbuf; ++i) { T v = IO::get(r); if (!(v >= mn && v <= mx)) inrange = false; buf.push_back(v); }
+  c.ok("tdigest.image-fully-consumed", r.ok && r.at_end(), "trailing or missing bytes: consumed " + str(r.p) + " of " + str(img.size()));
+  c.eq("tdigest.total-weight", wsum + nbuf, W); c.ok("tdigest.centroids-sorted-by-mean", sorted, "centroid means decrease"); c.ok("tdigest.values-within-min-max", inrange, "a centroid or buffered value outside [min, max] or a zero weight");
+  std::vector<std::pair<T, uint64_t> > acen; for (size_t i = 0; i < sk.centroids_.size(); ++i) acen.push_back(std::make_pair(sk.centroids_[i].get_mean(), (uint64_t)sk.centroids_[i].get_weight()));
+  std::vector<T> abuf(sk.buffer_.begin(), sk.buffer_.end());
+  c.ok("tdigest.centroids==sketch", cen == acen, "centroids differ"); c.ok("tdigest.buffer==sketch", buf == abuf, "buffered values differ");
+  c.rep.outcome(std::string("layout|tdigest|") + (nc ? "centroids" : "no-centroids") + (nbuf ? "+buffer" : ""));
+}
+
+// ---------------- Bloom filter (layout comment in bloom_filter_impl.hpp) ----------------
+// byte 0 preamble longs (3 empty, 4 otherwise), 1 serial version 1, 2 family 21, 3 flags (bit2 empty), 4-5 number of hashes, 6-7 unused; long 1: hash seed;
+// long 2: bit array length in longs (4) + unused (4); long 3 (not empty): number of bits set; then the bit array.
+inline void bloom_any(const Bytes& img, Obj& live, mc::Ctx& c) {
+  BloomObj* o = dynamic_cast<BloomObj*>(&live); if (!o) { c.fail("decoder-type", "unexpected object type"); return; }
+  Bloom& bf = o->bf; Rd r(img);
+  uint8_t pre = r.u8(), ver = r.u8(), famid = r.u8(), flags = r.u8(); uint16_t nh = r.u16(); r.u16(); uint64_t seed = r.u64(); uint32_t longs = r.u32(); r.u32();
+  if (!c.ok("bloom.header-in-bounds", r.ok, "image shorter than 24 bytes")) return;
+  c.eq("bloom.serial-version", (int)ver, 1); c.eq("bloom.family-id", (int)famid, 21); c.eq("bloom.num-hashes", (int)nh, (int)bf.get_num_hashes()); c.eq("bloom.seed", seed, (uint64_t)bf.get_seed());
+  c.eq("bloom.capacity", (uint64_t)longs * 64, (uint64_t)bf.get_capacity()); c.ok("bloom.flags-reserved-zero", (flags & 0xfb) == 0, "flags " + str((int)flags));
+  const bool empty = flags & 4; c.eq("bloom.flag-empty", empty, bf.is_empty()); c.eq("bloom.preamble-longs", (int)pre, empty ? 3 : 4);
+  if (empty) { c.ok("bloom.empty-image-is-24-bytes", r.at_end(), "size " + str(img.size())); c.eq("bloom.bits-used", (uint64_t)0, (uint64_t)bf.get_bits_used()); c.rep.outcome("layout|bloom|empty"); return; }
+  uint64_t nset = r.u64();
+  if (!c.ok("bloom.bit-array-fits-image", r.ok && (uint64_t)longs * 8 <= img.size() - r.p, "longs " + str(longs))) return;
+  const uint8_t* bits = img.data() + r.p; uint64_t pop = 0; for (size_t i = 0; i < (size_t)longs * 8; ++i) pop += (uint64_t)__builtin_popcount(bits[i]);
+  r.skip((size_t)longs * 8);
+  c.ok("bloom.image-fully-consumed", r.ok && r.at_end(), "trailing or missing bytes: consumed " + str(r.p) + " of " + str(img.size()));
+  // the count field may hold the documented "dirty" marker (all ones: DIRTY_BITS_VALUE, Java -1): the reader then recounts the bit array
+  const bool dirty = nset == ~(uint64_t)0;
+  if (!dirty) { c.eq("bloom.num-bits-set", nset, (uint64_t)bf.get_bits_used()); c.eq("bloom.num-bits-set==popcount", nset, pop); }
+  c.eq("bloom.popcount==bits-used", pop, (uint64_t)bf.get_bits_used()); c.ok("bloom.non-empty-image-has-bits", pop > 0, "not flagged empty but no bit is set");
+  c.ok("bloom.bit-array==filter", bf.bit_array_ != nullptr && memcmp(bits, bf.bit_array_, (size_t)longs * 8) == 0, "the bit array in the image differs from the filter's");
+  c.rep.outcome(std::string(pop == (uint64_t)longs * 64 ? "layout|bloom|full" : "layout|bloom|partial") + (dirty ? "|dirty-count" : "|count"));
+}
+
+// ---------------- density (layout comment in density_sketch_impl.hpp) ----------------
+// byte 0 preamble ints (3 empty, 6 otherwise), 1 serial version 1, 2 family 19, 3 flags (bit2 empty), 4-5 k, 6-7 unused, 8-11 dimensions; not empty:
+// 12-15 retained points, 16-23 N; then per level: the level's size (4) and that many points of `dimensions` doubles; a point of level h weighs 2^h.
+inline void density_any(const Bytes& img, Obj& live, mc::Ctx& c) {
+  DensObj* o = dynamic_cast<DensObj*>(&live); if (!o) { c.fail("decoder-type", "unexpected object type"); return; }
+  const DensObj::Sk& sk = o->sk; Rd r(img);
+  uint8_t pre = r.u8(), ver = r.u8(), famid = r.u8(), flags = r.u8(); uint16_t k = r.u16(); r.u16(); uint32_t dim = r.u32();
+  if (!c.ok("density.header-in-bounds", r.ok, "image shorter than 12 bytes")) return;
+  c.eq("density.serial-version", (int)ver, 1); c.eq("density.family-id", (int)famid, 19); c.eq("density.k", (int)k, (int)sk.get_k()); c.eq("density.dim", dim, (uint32_t)sk.get_dim()); c.ok("density.flags-reserved-zero", (flags & 0xfb) == 0, "flags " + str((int)flags));
+  const bool empty = flags & 4; c.eq("density.flag-empty", empty, sk.is_empty()); c.eq("density.preamble-ints", (int)pre, empty ? 3 : 6);
+  if (empty) { c.ok("density.empty-image-is-12-bytes", r.at_end(), "size " + str(img.size())); return; }
+  uint32_t ret = r.u32(); uint64_t n = r.u64();
+  c.eq("density.num-retained", ret, (uint32_t)sk.get_num_retained()); c.eq("density.n", n, (uint64_t)sk.get_n());
+  if (!c.ok("density.dim-positive", r.ok && dim > 0, "dim " + str(dim))) return;
+  std::vector<std::pair<std::vector<double>, uint64_t> > got; size_t level = 0;
+  while (r.ok && !r.at_end()) {
+    uint32_t sz = r.u32(); if (!c.ok("density.level-fits-image", r.ok && (uint64_t)sz * dim * 8 <= img.size() - r.p, "level " + str(level) + " size " + str(sz))) return;
+    for (uint32_t i = 0; i < sz; ++i) { std::vector<double> p(dim); for (uint32_t d = 0; d < dim; ++d) p[d] = r.f64(); got.push_back(std::make_pair(p, (uint64_t)1 << level)); }
+    ++level; if (!c.ok("density.level-count-sane", level <= 64, "more than 64 levels")) return;
+  }
+  c.ok("density.image-fully-consumed", r.ok && r.at_end(), "trailing or missing bytes");
+  c.eq("density.levels", level, (size_t)sk.levels_.size()); c.eq("density.points==num-retained", got.size(), (size_t)ret);   // (the compaction keeps a discrepancy-chosen subset, not exactly half: the weights need not sum to N)
+  std::vector<std::pair<std::vector<double>, uint64_t> > api; for (auto it = sk.begin(); it != sk.end(); ++it) api.push_back(std::make_pair(std::vector<double>((*it).first.begin(), (*it).first.end()), (uint64_t)(*it).second));
+  c.ok("density.point-order==iterator", got == api, "points in image order differ from iteration order");
+  std::sort(got.begin(), got.end()); std::sort(api.begin(), api.end());
+  c.ok("density.points-and-weights==api", got == api, "points decoded from the image differ from the iterator");
+}
+
+//@@MORE@@
+
+inline void register_more() {
+  table()["kll<string>"] = kll_any<std::string>; table()["kll<item>"] = kll_any<mc::Item>;
+  table()["req<float>"] = req_any<float>; table()["req<string>"] = req_any<std::string>; table()["req<item>"] = req_any<mc::Item>;
+  table()["classic<float>"] = classic_any<float>; table()["classic<string>"] = classic_any<std::string>; table()["classic<item>"] = classic_any<mc::Item>;
+  table()["theta-compact"] = theta_v3_and_legacy; table()["theta-compressed"] = theta_v4;
+  table()["tuple<i64>"] = tuple_any<int64_t>; table()["tuple<string>"] = tuple_any<std::string>; table()["array-of-doubles"] = aod_any;
+  table()["hll-compact"] = hll_any; table()["hll-updatable"] = hll_any; table()["cpc"] = cpc_any;
+  table()["frequent_items<i64>"] = fi_any<int64_t>; table()["frequent_items<string>"] = fi_any<std::string>; table()["frequent_items<item>"] = fi_any<mc::Item>;
+  table()["count_min"] = cm_any;
+  table()["var_opt_sketch<i64>"] = varopt_any<int64_t>; table()["var_opt_sketch<string>"] = varopt_any<std::string>; table()["var_opt_sketch<item>"] = varopt_any<mc::Item>;
+  table()["var_opt_union"] = varopt_union_any;
+  table()["ebpps<i64>"] = ebpps_any<int64_t>; table()["ebpps<string>"] = ebpps_any<std::string>;
+  table()["tdigest<double>"] = tdigest_any<double>; table()["tdigest<double>+buffer"] = tdigest_any<double>; table()["tdigest<float>"] = tdigest_any<float>; table()["tdigest<float>+buffer"] = tdigest_any<float>;
+  table()["bloom-owned"] = bloom_any; table()["bloom-writable-wrap"] = bloom_any; table()["density"] = density_any;
+}
+
+// ---------------- shipped reference images, read by independent old-format readers ----------------
+// The Java-written theta v1 / v2 images and the KLL v1 one-item image are parsed here from the documented old layouts; the content must equal what
+// the library reads on every path, and re-synthesising the theta images with theta_synth must reproduce the files (apart from documented-unused bytes),
+// which ties the synthesised images of theta_legacy_synth to real Java output.
+inline bool theta_old_parse(const Bytes& b, int& version, bool& empty, uint64_t& theta, std::vector<uint64_t>& e) {
+  const uint64_t MAXT = 0x7fffffffffffffffULL; Rd r(b); uint8_t pre = r.u8(); version = r.u8(); uint8_t fam = r.u8(); r.skip(5); theta = MAXT; empty = false; e.clear(); uint32_t n = 0;
+  if (!r.ok || fam != 3) return false;
+  if (version == 1) { if (pre != 3) return false; n = r.u32(); r.u32(); theta = r.u64(); }
+  else if (version == 2) { if (pre < 1 || pre > 3) return false; if (pre >= 2) { n = r.u32(); r.u32(); } if (pre == 3) theta = r.u64(); }
+  else return false;
+  empty = n == 0 && theta == MAXT;
+  if (!r.ok || (uint64_t)n * 8 > b.size() - r.p) return false;
+  for (uint32_t i = 0; i < n; ++i) e.push_back(r.u64());
+  return r.ok && r.at_end();
+}
+inline void legacy_more(mc::Report& rep, const mc::Config& cfg) {
+  using namespace datasketches;
+  const std::string root = getenv("VERIF_REPO") ? getenv("VERIF_REPO") : "/repo"; size_t n = 0;
+  const char* ts[] = {"theta_compact_empty_from_java_v1.sk", "theta_compact_empty_from_java_v2.sk", "theta_compact_estimation_from_java_v1.sk", "theta_compact_estimation_from_java_v2.sk"};
+  for (int i = 0; i < 4; ++i) {
+    const std::string h = ts[i]; if (!mc::journal("legacy-layout", h)) continue; mc::Ctx c(rep, "legacy-layout", h); const Bytes b = slurp(root + "/theta/test/" + h);
+    int version = 0; bool empty = false; uint64_t theta = 0; std::vector<uint64_t> e;
+    if (c.ok("legacy-file-present", !b.empty(), "cannot read " + h) && c.ok("theta-old.parsed-by-documented-layout", theta_old_parse(b, version, empty, theta, e), "the independent reader cannot parse " + h)) {
+      c.eq("theta-old.version-as-named", version, (i & 1) ? 2 : 1); c.eq("theta-old.emptiness-as-named", empty, i < 2); c.ok("theta-old.entries-sorted", std::is_sorted(e.begin(), e.end()), "old images are ordered");
+      if (i >= 2) c.ok("theta-old.estimation-as-named", theta < 0x7fffffffffffffffULL && !e.empty(), "theta " + mc::hex64(theta));
+      for (size_t j = 0; j < e.size(); ++j) if (!(e[j] != 0 && e[j] < theta)) { c.fail("theta-old.entries-below-theta", mc::hex64(e[j])); break; }
+      if (version == 2) { uint16_t sh; memcpy(&sh, b.data() + 6, 2); c.eq("theta-old.v2-seed-hash", sh, oracle::seed_hash(DEFAULT_SEED)); }
+      for (int path = 0; path < 3; ++path) {
+        const std::string pn = path == 0 ? "bytes" : path == 1 ? "stream" : "wrap";
+        try { ThetaView got;
+          if (path == 0) { CTheta s = CTheta::deserialize(b.data(), b.size(), DEFAULT_SEED, A64(1)); got = theta_view(s); }
+          else if (path == 1) { std::istringstream is(std::string(b.begin(), b.end())); CTheta s = CTheta::deserialize(is, DEFAULT_SEED, A64(1)); got = theta_view(s); }
+          else { WTheta s = WTheta::wrap(b.data(), b.size()); got = theta_view(s); }
+          c.eq("theta-old.emptiness==library", empty, got.empty); c.eq("theta-old.theta==library", theta, got.theta); c.ok("theta-old.entries==library", e == got.e, pn + ": " + str(got.e.size()) + " entries read by the library, " + str(e.size()) + " in the file"); c.ok("theta-old.ordered", got.ordered, pn);
+        } catch (const std::exception& ex) { c.fail("legacy-image-readable", pn + ": " + ex.what()); }
+      }
+      // the synthesised image of the same content equals the Java file except in bytes the old layouts leave unused (v1: 3-7 and 12-15; v2: 3-5 and 12-15)
+      Bytes syn = theta_synth(version, empty, theta, e), ref = b;
+      if (c.eq("theta-old.synthesised-size==file", syn.size(), ref.size())) {
+        for (size_t j = 3; j < 8 && j < ref.size(); ++j) if (version == 1 || j < 6) syn[j] = ref[j] = 0;
+        for (size_t j = 12; j < 16 && j < ref.size(); ++j) syn[j] = ref[j] = 0;
+        c.ok("theta-old.synthesised==file", syn == ref, "synthesised " + hexs(syn, 32) + " file " + hexs(ref, 32));
+      }
+    }
+    rep.flush_ctx_fails(c.fails, "legacy-layout", h); ++n;
+  }
+  { const std::string h = "kll_sketch_float_one_item_v1.sk"; mc::Ctx c(rep, "legacy-layout", h); const Bytes b = slurp(root + "/kll/test/" + h);
+    if (mc::journal("legacy-layout", h) && c.ok("legacy-file-present", !b.empty(), "cannot read " + h)) {
+      // serial version 1 (before the single-item format): the full layout with 5 preamble ints even for one item
+      Rd r(b); uint8_t pre = r.u8(), ver = r.u8(), fam = r.u8(), flags = r.u8(); uint16_t k = r.u16(); uint8_t m = r.u8(); r.u8(); uint64_t nn = r.u64(); uint16_t mink = r.u16(); uint8_t nl = r.u8(); r.u8();
+      c.eq("kll-old.preamble-ints", (int)pre, 5); c.eq("kll-old.serial-version", (int)ver, 1); c.eq("kll-old.family-id", (int)fam, 15); c.eq("kll-old.flags", (int)(flags & 5), 0); c.eq("kll-old.m", (int)m, 8); c.eq("kll-old.n", nn, (uint64_t)1); c.eq("kll-old.num-levels", (int)nl, 1);
+      uint32_t l0 = r.u32(); float mn = r.f32(), mx = r.f32(), item = r.f32();
+      c.ok("kll-old.image-fully-consumed", r.ok && r.at_end(), "consumed " + str(r.p) + " of " + str(b.size())); c.eq("kll-old.level-offset==k-1", l0, (uint32_t)k - 1);
+      try { kll_sketch<float> sk = kll_sketch<float>::deserialize(b.data(), b.size());
+        c.eq("kll-old.k==library", (int)k, (int)sk.get_k()); c.eq("kll-old.min-k==library", (int)mink, (int)sk.min_k_); c.eq("kll-old.min==library", mn, sk.get_min_item()); c.eq("kll-old.max==library", mx, sk.get_max_item());
+        std::vector<float> it; for (auto i = sk.begin(); i != sk.end(); ++i) it.push_back((*i).first); c.ok("kll-old.item==library", it.size() == 1 && it[0] == item, "items " + str(it.size()));
+      } catch (const std::exception& ex) { c.fail("legacy-image-readable", ex.what()); }
+    }
+    rep.flush_ctx_fails(c.fails, "legacy-layout", h); ++n; }
+  mc::journal_clear();
+  rep.evaluations += n; rep.states += n; rep.transitions += n; rep.traces += n;
+  rep.scenarios.push_back("legacy-layout: shipped old-format images parsed by independent readers=" + str(n));
+  rep.outcome("legacy-layout");
+  (void)cfg;
+}
 }
 #endif
